@@ -811,7 +811,7 @@ fn main() {
             }
             if args.engine_enabled("uth_race") {
                 // close() against a returning object is a window of a few instructions: C12 gets three times the rounds
-                let n = if prop == "C12" { sc(900.0, 24_000.0) } else { sc(300.0, 12_000.0) };
+                let n = if prop == "C12" { sc(900.0, 9_000.0) } else { sc(300.0, 4_000.0) };
                 th_race(&args, &mut rep, prop, n, true, prop == "C12");
             }
             if args.engine_enabled("uth_hammer") {
@@ -827,7 +827,7 @@ fn main() {
             }
             // abandoned and failing gets at full speed on several threads: the figures at rest afterwards
             if args.engine_enabled("th_race") {
-                th_race(&args, &mut rep, prop, sc(300.0, 12_000.0), false, false);
+                th_race(&args, &mut rep, prop, sc(300.0, 4_000.0), false, false);
             }
         }
         "C04" => {
@@ -872,7 +872,7 @@ fn main() {
                 }
                 if args.engine_enabled("th_race") && matches!(prop, "C01" | "C02" | "C06" | "C07" | "C09" | "C11") {
                     // close() racing a returning object is a window of a few instructions: C06 gets three times the rounds
-                    let n = if prop == "C06" { sc(900.0, 24_000.0) } else { sc(300.0, 12_000.0) };
+                    let n = if prop == "C06" { sc(900.0, 9_000.0) } else { sc(300.0, 4_000.0) };
                     th_race(&args, &mut rep, prop, n, false, prop == "C06");
                 }
                 if args.engine_enabled("th_hammer") {
@@ -886,7 +886,7 @@ fn main() {
                     utl_random(&args, &mut rep, prop, sc(20_000.0, 400_000.0));
                 }
                 if args.engine_enabled("uth_race") {
-                    th_race(&args, &mut rep, prop, sc(200.0, 6000.0), true, false);
+                    th_race(&args, &mut rep, prop, sc(200.0, 2500.0), true, false);
                 }
             }
             // status() of the unmanaged pool is the same `Status` and the same promise
@@ -928,15 +928,15 @@ fn main() {
             // lazy creation against lock contention: full-speed rounds only (no schedule point can sit between
             // a failed try_lock and the decision to create)
             if prop == "C08" && args.engine_enabled("th_race") {
-                th_race(&args, &mut rep, prop, sc(300.0, 12_000.0), false, false);
+                th_race(&args, &mut rep, prop, sc(300.0, 4_000.0), false, false);
             }
             if prop == "C11" && args.engine_enabled("utl") {
                 utl_random(&args, &mut rep, prop, sc(20_000.0, 400_000.0));
             }
             if prop == "C11" && args.engine_enabled("uth_race") {
-                th_race(&args, &mut rep, prop, sc(300.0, 12_000.0), true, false);
+                th_race(&args, &mut rep, prop, sc(300.0, 4_000.0), true, false);
                 // the figures of a closed pool at rest (calls that overlapped close() must leave nothing behind)
-                th_race(&args, &mut rep, prop, sc(120.0, 5_000.0), true, true);
+                th_race(&args, &mut rep, prop, sc(120.0, 1_600.0), true, true);
             }
         }
     }
